@@ -483,6 +483,8 @@ func (s *Store[H]) setHead(ctx context.Context, write datastore.Write, to uint64
 
 	// update the contiguous head
 	s.contiguousHead.Store(&newHead)
+	// Height must follow the receded head, SetHeight only ever grows it
+	s.heightSub.Init(newHead.Height())
 	if err := writeHeaderHashTo(ctx, write, newHead, headKey); err != nil {
 		return fmt.Errorf("writing headKey in batch: %w", err)
 	}
